@@ -138,6 +138,49 @@ int main(int argc, char** argv)
     g_budget.clear();
   }
   detail::verif_event_hook = nullptr;
+  // hand-off: sandboxes created by this thread (a pool set up in advance) are used and destroyed
+  // by OTHER threads, one thread per sandbox, while this thread keeps one for itself
+  {
+    std::vector<std::unique_ptr<RS>> pool;
+    for (int i = 0; i < 4; i++) {
+      pool.push_back(std::make_unique<RS>());
+      pool.back()->create_sandbox();
+    }
+    std::vector<std::string> use(4, "-"), destroy(4, "-");
+    auto work = [&](int i) {
+      try {
+        auto p = pool[i]->malloc_in_sandbox<int*>();
+        auto q = pool[i]->malloc_in_sandbox<int>();
+        *p = q;
+        tainted<int*, Sbx> back = *p;
+        bool same = back.UNSAFE_unverified() == q.UNSAFE_unverified();
+        pool[i]->free_in_sandbox(q);
+        pool[i]->free_in_sandbox(p);
+        use[i] = same ? "ok" : "wrong";
+      } catch (const std::runtime_error&) {
+        use[i] = "abort";
+      }
+      try {
+        pool[i]->destroy_sandbox();
+        destroy[i] = "ok";
+      } catch (const std::runtime_error&) {
+        destroy[i] = "abort";
+      }
+    };
+    std::vector<std::thread> workers;
+    for (int i = 1; i < 4; i++) {
+      workers.emplace_back(work, i);
+    }
+    work(0);
+    for (auto& t : workers) {
+      t.join();
+    }
+    for (int i = 0; i < 4; i++) {
+      tr::Ev e("handoff");
+      e.num("i", i).boolean("other_thread", i != 0).str("use", use[i]).str("destroy", destroy[i]);
+      out.put(e);
+    }
+  }
   {
     bool free_now = helper_gets_through(5000);
     join_helpers();
